@@ -16,10 +16,6 @@ package sio
 //@ spec wfChanged(c) = (forall k string :: (k in c.changed) ==> c.changed[k] != nil && (c.changed[k].Deleted ==> !(k in c.Machines))) &&
 //@                     (forall j string, k string :: (j in c.changed) && (k in c.changed) && j != k ==> c.changed[j] != c.changed[k])
 
-//@ iface core.Specter.Spec(recv) returns (s)
-//@   modifies nothing
-//@   ensures s != nil ==> wfSpec(s)
-
 //@ func (*Crew).Logf
 //@   trusted
 //@   pure
